@@ -83,8 +83,24 @@ def ext_call(eng, st, name, args, kwargs, node):
             raise Unsupported("re with a non-literal pattern")
         eng.fr.assumed_used.add(f"{name} compiled to a first-order formula for the literal pattern {pat.py!r}")
         return [(st, VBool(regex_formula(pat.py, subj.t, name.split(".")[1])))]
+    if name in ("base64.b64encode", "base64.urlsafe_b64encode", "base64.b64decode", "base64.urlsafe_b64decode"):
+        x = eng.as_iseq(st, args[0], node)
+        eng.fr.assumed_used.add("base64 (binascii): uninterpreted b64e/b64d/b64ue/b64ud; assumed law decode(encode(x) + b'==') == x, "
+                                "binascii.Error (a ValueError) where the input is not decodable")
+        short = name.split(".")[1]
+        if short.endswith("encode"):
+            f = smt.b64e if short == "b64encode" else smt.b64ue
+            return [(st, VSeq(f(x.t), "bytes"))]
+        f, ok = (smt.b64d, smt.b64_ok) if short == "b64decode" else (smt.b64ud, smt.b64u_ok)
+        eng.implicit_error(st, ok(x.t), "ValueError", node, "binascii.Error")
+        return [(st, VSeq(f(x.t), "bytes"))]
     if name in ("random.getrandbits",):
         n = eng.as_int(st, args[0], node)
+        if "rng_calls" in st.env and z3.is_int_value(n) and n.as_long() == 32:
+            c_ = st.env["rng_calls"].t
+            st.env["rng_calls"] = VInt(c_ + 1)
+            eng.fr.assumed_used.add("random.getrandbits(32): the next value of an arbitrary stream rng(i) in [0, 2**32)")
+            return [(st, VInt(smt.rng(c_)))]
         r = fresh("randbits", I)
         if z3.is_int_value(n):
             st.assume(0 <= r, r < 2 ** n.as_long())
